@@ -215,16 +215,8 @@ func fieldName(t types.Type, i int) string {
 }
 
 func typeShort(t types.Type) string {
-	return types.TypeString(t, func(p *types.Package) string {
-		path := p.Path()
-		if i := strings.LastIndex(path, "/"); i >= 0 {
-			// keep the last two path elements: enough to disambiguate v1 packages
-			if j := strings.LastIndex(path[:i], "/"); j >= 0 {
-				return path[j+1:]
-			}
-		}
-		return path
-	})
+	// full package paths; the final Abbrev pass shortens the well-known ones
+	return types.TypeString(t, func(p *types.Package) string { return p.Path() })
 }
 
 // SingleStore returns the only Store into alloc a (ignoring stores through
